@@ -49,14 +49,14 @@ type JobSpec struct {
 }
 
 type Violation struct {
-	Kind   string            `json:"kind"`
-	Msg    string            `json:"msg"`
-	Func   string            `json:"func"`
-	Pos    string            `json:"pos"`
-	Model  map[string]uint64 `json:"inputs"`
-	Sched  []string          `json:"schedule,omitempty"`
-	Prefix []int             `json:"prefix"`
-	SchedPath []int          `json:"sched_choices,omitempty"`
+	Kind      string            `json:"kind"`
+	Msg       string            `json:"msg"`
+	Func      string            `json:"func"`
+	Pos       string            `json:"pos"`
+	Model     map[string]uint64 `json:"inputs"`
+	Sched     []string          `json:"schedule,omitempty"`
+	Prefix    []int             `json:"prefix"`
+	SchedPath []int             `json:"sched_choices,omitempty"`
 }
 
 func (v *Violation) Signature(job string) string {
